@@ -4,12 +4,34 @@ package main
 
 import (
 	"fmt"
+	"os"
+	"strconv"
+	"strings"
+	"sync"
 	"go/types"
 	"math"
 	"math/big"
 )
 
 var rtTable = map[string]stubFn{}
+
+var (
+	pinOnce sync.Once
+	pins    map[string]int
+)
+
+func pinnedChoices() map[string]int {
+	pinOnce.Do(func() {
+		pins = map[string]int{}
+		for _, kv := range strings.Split(os.Getenv("VERIF_PIN"), ",") {
+			k, v, ok := strings.Cut(kv, "=")
+			if n, err := strconv.Atoi(v); ok && err == nil {
+				pins[k] = n
+			}
+		}
+	})
+	return pins
+}
 
 func rtStr(v value) string {
 	s, ok := v.(string)
@@ -111,6 +133,8 @@ func init() {
 				if idx < 0 || idx >= n {
 					idx = 0
 				}
+			} else if v, ok := pinnedChoices()[name]; ok && v < n {
+				idx = v // VERIF_PIN probing aid: explore one slice of the configuration space
 			} else {
 				idx = r.choose('k', n)
 			}
